@@ -44,11 +44,12 @@ PlaceStart(h, limit, n) ==
     IN  IF Fits(o, RecSize(n)) THEN o ELSE Up(lim, Page)
 Place(h, limit, n) == <<PlaceStart(h, limit, n), PlaceStart(h, limit, n) + RecSize(n)>>
 (* What the layout demands of ANY allocator (the property): the record starts  *)
-(* at an aligned offset at or above the limit and above the table, fits, and    *)
-(* the new limit `end` is aligned and covers it without entering a page tail.   *)
+(* at an aligned offset at or above the limit (ANY limit, aligned or not) and   *)
+(* above the table, fits, and the new limit `end` covers it without entering a  *)
+(* page tail.                                                                   *)
 PlaceRel(h, limit, n, start, end) ==
     /\ start >= limit /\ start >= FirstRec(h)
-    /\ end >= start + RecHdr + n /\ end % Unit = 0
+    /\ end >= start + RecHdr + n
     /\ Fits(start, end - start)
 (* declarative reading, used as a sanity theorem: `start` is the LEAST fitting *)
 (* aligned offset >= lim                                                      *)
@@ -131,7 +132,8 @@ MetaOK(f)   == /\ \A i \in DOMAIN f.meta : f.meta[i].sep
 RecOK(f, b, r) == /\ r.ok /\ r.nlen >= 1 /\ r.nlen <= MaxName
                   /\ r.off >= FirstRec(f.hdrLen)
                   /\ Fits(r.off, RecSize(r.nlen))
-                  /\ RecEnd(r) <= f.limit
+                  /\ r.off + RecHdr + r.nlen <= f.limit          \* (the limit itself need not be a multiple of 32: a writer may
+                                                                 \*  store the exact end of its last record)
                   /\ r.bucket = b
 ChainsOK(f) ==
     LET ch   == Chains(f)
@@ -145,7 +147,7 @@ ChainsOK(f) ==
             /\ \A i, j \in DOMAIN R : R[i].off < R[j].off => RecEnd(R[i]) <= R[j].off    \* records do not overlap
             /\ Cardinality({R[k].name.id : k \in DOMAIN R}) = Len(R)  \* no name twice
 LimitOK(f)  == /\ f.limit <= f.size
-               /\ f.limit = 0 \/ (f.limit >= FirstRec(f.hdrLen) /\ f.limit % Unit = 0)
+               /\ f.limit = 0 \/ f.limit >= FirstRec(f.hdrLen)
 WellFormed(f) == HeaderOK(f) /\ MetaOK(f) /\ LimitOK(f) /\ ChainsOK(f)
 
 Linked(f)  == {RecAt(f, o) : o \in SeqRange(AllOffs(f)) \ {Bad}}
